@@ -205,4 +205,81 @@ theorem annotations_rt {as : Annotations} (hw : Annotations.wf as = true) (hne :
 theorem annotations_err {r : List Char} (h : hdP (fun c => c != '(') r = true) : Annotations.parse r = .err :=
   andThen_of_err (tag_hd h)
 
+/-! ### optional annotations of a type, `cpp_type` -/
+
+/-- `opt(permutation((opt(blank), Annotations::parse)))` finds no annotations -/
+def AnnsStop (r : List Char) : Prop :=
+  opt (pmap (fun x => x.2) (permutation2 (opt blank) Annotations.parse)) r = .ok none r
+
+theorem annsStop_of {b r : List Char} (hb : BT b) (hr : NB r) (hd : hdP (fun c => c != '(') r = true) :
+    AnnsStop (b ++ r) := by
+  unfold AnnsStop
+  apply opt_of_err
+  apply pmap_of_err
+  simp [permutation2, optBlank_rt hb hr, annotations_err hd, PR.map, PR.bind]
+
+theorem typeAnns_rt {as : Annotations} (hw : Annotations.wf as = true) (hne : as ≠ []) (l : Layout) (r : List Char) :
+    opt (pmap (fun x => x.2) (permutation2 (opt blank) Annotations.parse)) ((rOptAnns as l).1 ++ r) = .ok (some as) r := by
+  have he : as.isEmpty = false := by cases as; exact absurd rfl hne; rfl
+  simp only [rOptAnns, he, Bool.false_eq_true, if_false, rSeq_fst, List.append_assoc]
+  apply opt_of_ok
+  have hnb : NB ((rAnns as (rB0 l).2).1 ++ r) := by
+    simp only [rAnns, he, Bool.false_eq_true, if_false, rSeq_fst, rLit_fst, List.append_assoc]
+    show notBlankStart '(' = true; decide
+  simp [pmap, permutation2, optBlank_rt (rB0_BT l) hnb, annotations_rt hw hne, PR.map, PR.bind]
+
+/-- `opt(preceded(blank, CppType::parse))` finds no `cpp_type` -/
+def NoCpp (r : List Char) : Prop := opt (skip blank CppType.parse) r = .ok none r
+
+theorem noCpp_of {b r : List Char} (hb : BT b) (hr : NB r) (h : CppType.parse r = .err) : NoCpp (b ++ r) := by
+  unfold NoCpp
+  apply opt_of_err
+  by_cases hne : b = []
+  · subst hne; exact skip_of_err (blank_err hr)
+  · rw [skip_of_ok (blank_rt hb hne hr)]; exact h
+
+theorem cppType_err_hd {r : List Char} (h : hdP (fun c => c != 'c') r = true) : CppType.parse r = .err :=
+  andThen_of_err (tag_hd h)
+
+/-- a word other than `cpp_type` is not read as the `cpp_type` keyword -/
+theorem cppType_err_word {i r : List Char} (hi : identOk i = true) (hr : hdP (fun c => !isIdentChar c) r = true)
+    (hne : i ≠ cs!"cpp_type") : CppType.parse (i ++ r) = .err := by
+  unfold CppType.parse
+  rcases tag_word (kw := cs!"cpp_type") (i := i) (by decide) hr with h | ⟨m, e, h⟩
+  · exact andThen_of_err h
+  · rw [andThen_of_ok h]
+    cases m with
+    | nil => simp at e; exact absurd e hne
+    | cons c m =>
+      have hc : isIdentChar c = true := identOk_all hi c (by simp [e])
+      have : NB (c :: m ++ r) := by
+        show notBlankStart c = true
+        cases hb : notBlankStart c with
+        | true => rfl
+        | false => have := blankStart_not_identChar c hb; simp [hc] at this
+      exact andThen_of_err (blank_err this)
+
+theorem cppOpt_rt {c : Option CppType} (hc : cppOk c = true) (l : Layout) {r : List Char} (hr : c = none → NoCpp r) :
+    opt (skip blank CppType.parse) ((rCppOpt c l).1 ++ r) = .ok c r := by
+  cases c with
+  | none => simp only [rCppOpt, rLit_fst, List.nil_append]; exact hr rfl
+  | some lit =>
+    simp only [rCppOpt, rSeq_fst, rSeq_snd, rLit_fst, rLit_snd, List.append_assoc]
+    apply opt_of_ok
+    rw [skip_of_ok (blank_rt (rB1_BT l) (rB1_ne l) (by show notBlankStart 'c' = true; decide))]
+    unfold CppType.parse
+    rw [andThen_of_ok (tag_append _ _), andThen_blank (rB1_BT _) (rB1_ne _) (rLiteral_NB hc _ _),
+      andThen_of_ok (rLiteral_rt hc _ _)]
+    rfl
+
+/-- everything a type needs of what follows it holds in front of a closing `>` or a separator -/
+theorem follow_close {b r : List Char} {c : Char} (hb : BT b) (hc : c = '>' ∨ c = ',' ∨ c = ';') :
+    Sep (b ++ c :: r) ∧ AnnsStop (b ++ c :: r) ∧ PathStop (b ++ c :: r) ∧ NoCpp (b ++ c :: r) := by
+  have h1 : isSepChar c = true := by rcases hc with h | h | h <;> subst h <;> decide
+  have h2 : notBlankStart c = true := by rcases hc with h | h | h <;> subst h <;> decide
+  have h3 : (c != '(') = true := by rcases hc with h | h | h <;> subst h <;> decide
+  have h4 : (c != '.') = true := by rcases hc with h | h | h <;> subst h <;> decide
+  have h5 : (c != 'c') = true := by rcases hc with h | h | h <;> subst h <;> decide
+  exact ⟨hb.sep_append (Or.inr h1), annsStop_of hb h2 h3, pathStop_of hb h2 h4, noCpp_of hb h2 (cppType_err_hd h5)⟩
+
 end Pilota.Idl
